@@ -26,7 +26,7 @@ def run(tier, replay=None):
     else:
         cases = small
     for c in cases:
-        c["id"] = f"n={c['n']} " + " ".join(f"{e['i']}>{e['j']}:{e['form'][0]}{e['spell'][0]}{e['place'][0]}" for e in c["edges"])
+        c["id"] = f"n={c['n']} bare={[k + 1 for k, b in enumerate(c['bare']) if b]} " + " ".join(f"{e['i']}>{e['j']}:{e['form'][0]}{e['spell'][0]}{e['place'][0]}" for e in c["edges"])
     cases = gen.dedupe(cases, lambda c: c["id"])
     C.log(f"[{PID}] {len(cases)} projects")
     dis, skips, st = l1.run_cases(binary, work, cases, trace=True)
